@@ -118,6 +118,7 @@ struct nni_pipe {
 	nni_listener      *p_listener;
 	nni_atomic_bool    p_closed;
 	bool               p_starting; // protocol pipe_start in progress
+	bool               p_proto_ok; // protocol pipe_init succeeded
 	nni_atomic_flag    p_stop;
 	nni_reap_node      p_reap;
 	nni_refcnt         p_refcnt;
